@@ -38,6 +38,15 @@ structure Good (b : Nat) (h0 : Heap) (pre : Memo) (s : St) : Prop where
   old : ∀ x, x < b → ¬ Writable h0 pre x → s.h[x]? = h0[x]?
   fresh : ∀ p ∈ s.m, p ∈ pre ∨ b ≤ p.2
   newrefs : ∀ j o, b ≤ j → s.h[j]? = some o → ∀ f ∈ o.fields, FreshVal b pre f.2
+  /-- (when the pre-seeded targets exist) every memo target is an allocated object -/
+  lt : (∀ p ∈ pre, p.2 < b) → ∀ p ∈ s.m, p.2 < s.h.size
+  /-- (when the pre-seeded targets exist) a fresh target is the copy of one source only -/
+  inj : (∀ p ∈ pre, p.2 < b) → ∀ p q, p ∈ s.m → q ∈ s.m → b ≤ p.2 → p.2 = q.2 → p.1 = q.1
+
+theorem size_setField (h : Heap) (j : Nat) (n : String) (v : Val) : (setField h j n v).size = h.size := by
+  unfold setField; split <;> simp
+theorem size_setFields (h : Heap) (j : Nat) (fs : List (String × Val)) : (setFields h j fs).size = h.size := by
+  unfold setFields; split <;> simp
 
 theorem lookup_mem {m : Memo} {i j : Nat} (h : m.lookup i = some j) : (i, j) ∈ m := by
   induction m with
@@ -122,8 +131,14 @@ theorem good_push {b : Nat} {h0 : Heap} {pre : Memo} {s : St} (g : Good b h0 pre
     by_cases hjs : j = s.h.size
     · simp [hjs] at hget; subst hget; exact ho f hf
     · simp [hjs] at hget; exact g.newrefs j o' hj hget f hf
+  lt := by
+    intro hp p hm
+    have := g.lt hp p hm
+    simp; omega
+  inj := g.inj
 
-theorem good_memo {b : Nat} {h0 : Heap} {pre : Memo} {s : St} (g : Good b h0 pre s) (i j : Nat) (hj : b ≤ j) :
+theorem good_memo {b : Nat} {h0 : Heap} {pre : Memo} {s : St} (g : Good b h0 pre s) (i j : Nat) (hj : b ≤ j)
+    (hjlt : j < s.h.size) (hjnew : (∀ p ∈ pre, p.2 < b) → ∀ p ∈ s.m, p.2 ≠ j) :
     Good b h0 pre ⟨s.h, (i, j) :: s.m⟩ where
   base := g.base
   old := g.old
@@ -133,6 +148,18 @@ theorem good_memo {b : Nat} {h0 : Heap} {pre : Memo} {s : St} (g : Good b h0 pre
     · subst h; exact Or.inr hj
     · exact g.fresh p h
   newrefs := g.newrefs
+  lt := by
+    intro hp p hm
+    rcases List.mem_cons.mp hm with h | h
+    · subst h; exact hjlt
+    · exact g.lt hp p h
+  inj := by
+    intro hp p q hpm hqm hb he
+    rcases List.mem_cons.mp hpm with h1 | h1 <;> rcases List.mem_cons.mp hqm with h2 | h2
+    · subst h1; subst h2; rfl
+    · subst h1; exact absurd he.symm (hjnew hp q h2)
+    · subst h2; exact absurd he (hjnew hp p h1)
+    · exact g.inj hp p q h1 h2 hb he
 
 /-- overwriting the fields of a fresh object with values of the copy -/
 theorem good_setFields {b : Nat} {h0 : Heap} {pre : Memo} {s : St} (g : Good b h0 pre s) (j : Nat) (hj : b ≤ j)
@@ -142,7 +169,9 @@ theorem good_setFields {b : Nat} {h0 : Heap} {pre : Memo} {s : St} (g : Good b h
   | none => simpa using g
   | some o =>
     simp only
-    refine ⟨?_, ?_, g.fresh, ?_⟩
+    refine ⟨?_, ?_, g.fresh, ?_, ?_, g.inj⟩
+    rotate_right
+    · intro hp p hm; have := g.lt hp p hm; simpa using this
     · have := g.base; simpa using this
     · intro x hx hw
       rw [← g.old x hx hw]
@@ -165,7 +194,9 @@ theorem good_setField {b : Nat} {h0 : Heap} {pre : Memo} {s : St} (g : Good b h0
   | none => simpa using g
   | some o =>
     simp only
-    refine ⟨?_, ?_, g.fresh, ?_⟩
+    refine ⟨?_, ?_, g.fresh, ?_, ?_, g.inj⟩
+    rotate_right
+    · intro hp p hm; have := g.lt hp p hm; simpa using this
     · have := g.base; simpa using this
     · intro x hx hw
       rw [← g.old x hx hw]
@@ -243,7 +274,8 @@ theorem good_attach {b : Nat} {h0 : Heap} {pre : Memo} {s : St} (g : Good b h0 p
       · subst hf; exact freshVal_new pre (by omega)
       · subst hf; exact freshVal_new pre hj)
     have g4 := good_setField g3 j (Or.inl hj) "_annotations" (.ref (s.h.size + 2)) (freshVal_new pre (by omega))
-    exact good_memo g4 a (s.h.size + 2) (by omega)
+    exact good_memo g4 a (s.h.size + 2) (by omega) (by simp [size_setField])
+      (fun hp p hm => by have := g.lt hp p hm; omega)
 
 /-- postconditions of the three mutually recursive copy functions -/
 def PVal (b : Nat) (h0 : Heap) (pre : Memo) (fuel : Nat) : Prop :=
@@ -366,7 +398,8 @@ theorem pval_succ {b : Nat} {h0 : Heap} {pre : Memo} {fuel : Nat} (hp : PVal b h
               simp only [h1] at h
               obtain ⟨g1, ft⟩ := hp s tv s1 tv' g h1
               have hb1 := g1.base
-              have g2 := good_memo (good_push g1 (Obj.mk .annset o.cls ([])) (by simp)) i s1.h.size hb1
+              have g2 := good_memo (good_push g1 (Obj.mk .annset o.cls ([])) (by simp)) i s1.h.size hb1 (by simp)
+                (fun hp p hm => Nat.ne_of_lt (g1.lt hp p hm))
               cases h2 : cpFields fuel ⟨s1.h.push (Obj.mk .annset o.cls []), (i, s1.h.size) :: s1.m⟩ items with
               | error e => simp [h2] at h
               | ok r2 =>
@@ -395,7 +428,8 @@ theorem pval_succ {b : Nat} {h0 : Heap} {pre : Memo} {fuel : Nat} (hp : PVal b h
           · simp at h
         · -- attribute-wise copy; annotations last
           have hb := g.base
-          have g1 := good_memo (good_push g { o with fields := [] } (by simp)) i s.h.size hb
+          have g1 := good_memo (good_push g { o with fields := [] } (by simp)) i s.h.size hb (by simp)
+            (fun hp p hm => Nat.ne_of_lt (g.lt hp p hm))
           cases h1 : cpFields fuel ⟨s.h.push { o with fields := [] }, (i, s.h.size) :: s.m⟩ (planFields o) with
           | error e => simp [h1] at h
           | ok r1 =>
@@ -433,6 +467,122 @@ theorem good_init (h : Heap) (pre : Memo) : Good h.size h pre ⟨h, pre⟩ where
     intro j o hj hget
     have : h[j]? = none := by simp; omega
     rw [this] at hget; cases hget
+  lt := fun hp p hm => hp p hm
+  inj := by
+    intro hp p q hpm _ hb _
+    have := hp p hpm; omega
+
+/-- what `preseed` guarantees about the state `cpVal` starts from (relative to the exported heap `h`) -/
+structure PreInv (h : Heap) (pre : List (Nat × PreTarget)) (s : St) : Prop where
+  size : h.size ≤ s.h.size
+  old : ∀ x, x < h.size → s.h[x]? = h[x]?
+  lt : ∀ p ∈ s.m, p.2 < s.h.size
+  tgt : ∀ t ∈ targets s.m, (∃ i, (i, PreTarget.existing t) ∈ pre) ∨ h.size ≤ t
+  newUnbound : ∀ x, h.size ≤ x → isBound s.h x = false
+
+theorem preinv_init (h : Heap) (pre : List (Nat × PreTarget)) : PreInv h pre ⟨h, []⟩ where
+  size := Nat.le_refl _
+  old := fun _ _ => rfl
+  lt := by intro p hp; cases hp
+  tgt := by intro t ht; simp [targets] at ht
+  newUnbound := by
+    intro x hx
+    have : h[x]? = none := by simp; omega
+    simp [isBound, this]
+
+theorem isBound_push_lt (h : Heap) (o : Obj) (x : Nat) (hx : x < h.size) : isBound (h.push o) x = isBound h x := by
+  apply isBound_congr; simp [Array.getElem?_push]; omega
+
+theorem preseed_inv (h : Heap) (pre : List (Nat × PreTarget)) : ∀ (r : List (Nat × PreTarget)) (s s0 : St),
+    PreInv h pre s → (∀ e ∈ r, e ∈ pre) → preseed s r = .ok s0 → PreInv h pre s0 := by
+  intro r
+  induction r with
+  | nil => intro s s0 g _ hr; simp [preseed] at hr; subst hr; exact g
+  | cons e r ih =>
+    intro s s0 g hsub hr
+    obtain ⟨i, t⟩ := e
+    have hsub' : ∀ e ∈ r, e ∈ pre := fun e he => hsub e (List.mem_cons_of_mem _ he)
+    cases t with
+    | existing j =>
+      simp only [preseed] at hr
+      by_cases hj : j < s.h.size
+      · simp only [hj, if_true] at hr
+        refine ih ⟨s.h, (i, j) :: s.m⟩ s0 ⟨g.size, g.old, ?_, ?_, g.newUnbound⟩ hsub' hr
+        · intro p hp
+          rcases List.mem_cons.mp hp with e | e
+          · subst e; exact hj
+          · exact g.lt p e
+        · intro t ht
+          simp only [targets, List.map_cons, List.mem_cons] at ht
+          rcases ht with e | e
+          · subst e; exact Or.inl ⟨i, hsub _ (by simp)⟩
+          · exact g.tgt t e
+      · simp [hj] at hr
+    | sameAs k =>
+      simp only [preseed] at hr
+      cases hl : s.m.lookup k with
+      | none => simp [hl] at hr
+      | some j =>
+        simp only [hl] at hr
+        have hmem := lookup_mem hl
+        refine ih ⟨s.h, (i, j) :: s.m⟩ s0 ⟨g.size, g.old, ?_, ?_, g.newUnbound⟩ hsub' hr
+        · intro p hp
+          rcases List.mem_cons.mp hp with e | e
+          · subst e; exact g.lt (k, j) hmem
+          · exact g.lt p e
+        · intro t ht
+          simp only [targets, List.map_cons, List.mem_cons] at ht
+          rcases ht with e | e
+          · rw [e]; exact g.tgt j (List.mem_map.mpr ⟨(k, j), hmem, rfl⟩)
+          · exact g.tgt t e
+    | fresh =>
+      simp only [preseed] at hr
+      cases ho : s.h[i]? with
+      | none => simp [ho] at hr
+      | some o =>
+        simp only [ho] at hr
+        cases hlab : o.get "_label" with
+        | none => simp [hlab] at hr
+        | some lab =>
+          simp only [hlab, newTaxon] at hr
+          have hsz := g.size
+          have step := fun g' => ih _ s0 g' hsub' hr
+          apply step
+          refine ⟨?_, ?_, ?_, ?_, ?_⟩
+          · simp; omega
+          · intro x hx
+            rw [← g.old x hx]
+            simp [Array.getElem?_push]
+            have h1 : x ≠ s.h.size + 1 := by omega
+            have h2 : x ≠ s.h.size := by omega
+            simp [h1, h2]
+          · intro p hp
+            rcases List.mem_cons.mp hp with e | e
+            · subst e; simp
+            · have := g.lt p e; simp; omega
+          · intro t ht
+            simp only [targets, List.map_cons, List.mem_cons] at ht
+            rcases ht with e | e
+            · subst e; exact Or.inr (by omega)
+            · exact g.tgt t e
+          · intro x hx
+            by_cases h1 : x < s.h.size
+            · rw [isBound_push_lt _ _ _ (by simp; omega), isBound_push_lt _ _ _ h1]; exact g.newUnbound x hx
+            · by_cases h2 : x = s.h.size
+              · subst h2
+                rw [isBound_push_lt _ _ _ (by simp)]
+                simp [isBound, Obj.get, List.lookup]
+              · by_cases h3 : x = s.h.size + 1
+                · subst h3
+                  have e : ∀ (a : Heap) (o1 o2 : Obj), ((a.push o1).push o2)[a.size + 1]? = some o2 := by
+                    intro a o1 o2; simp [Array.getElem_push]
+                  unfold isBound
+                  dsimp only
+                  rw [e]
+                  simp [Obj.get, List.lookup]
+                · unfold isBound
+                  dsimp only
+                  rw [Array.getElem?_eq_none (by simp; omega)]
 
 end Aux
 
@@ -564,9 +714,13 @@ theorem frame_copy_write (fuel : Nat) (h : Heap) (pre : Memo) (v : Val) (s' : St
     have := hclosed _ _ hget _ hf _ hfk
     exact ⟨this, hsame _ this⟩
 
-/-- **bound_annotation_retarget**: after the re-targeting step, an attribute-bound copy whose source was bound to the
-source owner `i` is bound to the copy `j` (same attribute name). -/
-theorem bound_annotation_retarget (s : St) (i j i1 j2 : Nat) (nm : String)
+/-- **retarget_step_partial**: the re-targeting step of `deep_copy_annotations_from` binds the copied annotation to the copy
+`j` (same attribute name) when its source was bound to the source owner `i`.
+PARTIAL: this is a statement about the single step `retarget`, immediately after it. What is missing for the clause "bound
+annotations of the copy follow the copy's attributes": that in the FINAL state of `cpVal` every bound annotation of the copy
+whose source was bound to `i` is bound to `memo(i)` — later steps could in principle overwrite `_value` again (they do not
+on any of the compared cases; the harness checks owner identity and value-following on the real copy for every case). -/
+theorem retarget_step_partial (s : St) (i j i1 j2 : Nat) (nm : String)
     (hb : isBound s.h j2 = true) (hv : boundValue s.h i1 = some (.ref i, .atom nm)) :
     boundValue (retarget s i j (.ref i1) (.ref j2)).h j2 = some (.ref j, .atom nm) := by
   have hlt : j2 < s.h.size := by
@@ -596,7 +750,9 @@ theorem bound_annotation_retarget (s : St) (i j i1 j2 : Nat) (nm : String)
 /-- **copy_independent_partial**: freshness + no write + disjointness + both frame directions, bundled for the deep copy.
 What is missing for the full statement: `copy_iso` — that the copy is field-wise equal to the source under the memo
 (structural equality of source and copy) is *not* proved here; it is covered by the per-case comparison with the real copy
-and by the fingerprint oracle only.  Nor is fuel sufficiency proved (the driver reports `err fuel`, it never defaults). -/
+and by the fingerprint oracle only.  Nor is fuel sufficiency proved: every copy theorem is conditional on the run returning
+`ok` (the driver reports `err fuel` per case, it never defaults; `fuel_mono`/`fuel_result_unique` show that success and the
+result do not depend on the amount of fuel). -/
 theorem copy_independent_partial (fuel : Nat) (h : Heap) (v : Val) (s' : St) (v' : Val)
     (hr : cpVal fuel ⟨h, []⟩ v = .ok (s', v')) :
     (∀ p ∈ s'.m, h.size ≤ p.2) ∧
@@ -610,6 +766,270 @@ theorem copy_independent_partial (fuel : Nat) (h : Heap) (v : Val) (s' : St) (v'
     · exact h1
   · intro x o' y hx hy
     exact ((frame_source_write fuel h [] v s' v' hr x hx (by intro r hr1; simp [targets] at hr1) o') y).2 hy
+
+/-- **copy_memo_injective**: when the pre-seeded targets exist, every memo target is an allocated object and every freshly
+allocated target is the copy of exactly one source object (distinct sources get distinct copies). -/
+theorem copy_memo_injective (fuel : Nat) (h : Heap) (pre : Memo) (v : Val) (s' : St) (v' : Val)
+    (hpre : ∀ p ∈ pre, p.2 < h.size) (hr : cpVal fuel ⟨h, pre⟩ v = .ok (s', v')) :
+    (∀ p ∈ s'.m, p.2 < s'.h.size) ∧
+    (∀ p q, p ∈ s'.m → q ∈ s'.m → h.size ≤ p.2 → p.2 = q.2 → p.1 = q.1) :=
+  let g := ((pval_all h.size h pre fuel) _ _ _ _ (good_init h pre) hr).1
+  ⟨g.lt hpre, g.inj hpre⟩
+
+/-! ### the routes the driver runs (`copyRoute` = `preseed` then `cpVal`) -/
+
+/-- **route_spec**: what `copyRoute` — the function the driver runs — does: it pre-seeds (leaving every exported object
+unchanged, allocating only new taxa, seeding only targets that exist and are either listed `.existing` targets of the route
+or new objects, none of which is a bound annotation) and then runs `cpVal` with fuel `h.size + 1` from that state.
+Every theorem about `cpVal` above therefore applies to the driver's run with `h := s0.h`, `pre := s0.m`. -/
+theorem route_spec (h : Heap) (pre : List (Nat × PreTarget)) (root : Val) (s' : St) (v' : Val)
+    (hr : copyRoute h pre root = .ok (s', v')) :
+    ∃ s0, preseed ⟨h, []⟩ pre = .ok s0 ∧ cpVal (h.size + 1) s0 root = .ok (s', v') ∧
+      h.size ≤ s0.h.size ∧ (∀ x, x < h.size → s0.h[x]? = h[x]?) ∧ (∀ p ∈ s0.m, p.2 < s0.h.size) ∧
+      (∀ t ∈ targets s0.m, (∃ i, (i, PreTarget.existing t) ∈ pre) ∨ h.size ≤ t) ∧
+      (∀ x, h.size ≤ x → isBound s0.h x = false) := by
+  unfold copyRoute at hr
+  cases hp : preseed ⟨h, []⟩ pre with
+  | error e => simp [hp] at hr
+  | ok s0 =>
+    simp only [hp] at hr
+    have g := preseed_inv h pre pre ⟨h, []⟩ s0 (preinv_init h pre) (fun _ he => he) hp
+    exact ⟨s0, rfl, hr, g.size, g.old, g.lt, g.tgt, g.newUnbound⟩
+
+/-- **route_no_write**: on every route whose listed `.existing` targets (the namespace and its taxa; the members of the other
+namespace) are not bound annotations, the run of the driver's `copyRoute` leaves every exported object untouched —
+copying never changes the source, the namespace or the taxa. -/
+theorem route_no_write (h : Heap) (pre : List (Nat × PreTarget)) (root : Val) (s' : St) (v' : Val)
+    (hT : ∀ i t, (i, PreTarget.existing t) ∈ pre → isBound h t = false)
+    (hr : copyRoute h pre root = .ok (s', v')) :
+    ∀ x, x < h.size → s'.h[x]? = h[x]? := by
+  obtain ⟨s0, _, hc, hsz, hold, _, htgt, hnb⟩ := route_spec h pre root s' v' hr
+  intro x hx
+  have hunb : ∀ t ∈ targets s0.m, isBound s0.h t = false := by
+    intro t ht
+    by_cases hlt : t < h.size
+    · rcases htgt t ht with ⟨i, hi⟩ | hge
+      · rw [isBound_congr (hold t hlt)]; exact hT i t hi
+      · omega
+    · exact hnb t (by omega)
+  obtain ⟨s0h, s0m⟩ := s0
+  rw [← hold x hx]
+  exact copy_no_write_scoped (h.size + 1) s0h s0m root s' v' hunb hc x (by simp at hsz; omega)
+
+/-- **route_shares_only_preseeded**: an exported (old) object reachable from the result of the driver's `copyRoute` is
+reachable from a seeded target, and every seeded target is a listed `.existing` target of the route or a new taxon. With
+`pre = []` (deep copy) no exported object is reachable from the copy at all. -/
+theorem route_shares_only_preseeded (h : Heap) (pre : List (Nat × PreTarget)) (root : Val) (s' : St) (v' : Val)
+    (hr : copyRoute h pre root = .ok (s', v')) :
+    ∀ x, Reach s'.h v' x → x < h.size →
+      ∃ t, ((∃ i, (i, PreTarget.existing t) ∈ pre) ∨ h.size ≤ t) ∧ Reach s'.h (.ref t) x := by
+  obtain ⟨s0, _, hc, hsz, _, _, htgt, _⟩ := route_spec h pre root s' v' hr
+  intro x hx hlt
+  obtain ⟨s0h, s0m⟩ := s0
+  obtain ⟨r, hr1, hr2⟩ := copy_shares_only_preseeded (h.size + 1) s0h s0m root s' v' hc x hx (by simp at hsz; omega)
+  exact ⟨r, htgt r hr1, hr2⟩
+
+/-! ### fuel -/
+namespace Aux
+def MV (f : Nat) : Prop := ∀ s v r, cpVal f s v = .ok r → cpVal (f + 1) s v = .ok r
+def MF (f : Nat) : Prop := ∀ fs s r, cpFields f s fs = .ok r → cpFields (f + 1) s fs = .ok r
+def MI (f : Nat) : Prop := ∀ items s i j r, cpItems f s i j items = .ok r → cpItems (f + 1) s i j items = .ok r
+
+theorem mf_of_mv {f : Nat} (hv : MV f) : MF f := by
+  intro fs
+  induction fs with
+  | nil => intro s r h; simp [cpFields] at h ⊢; exact h
+  | cons kv rest ih =>
+    intro s r h
+    obtain ⟨k, v⟩ := kv
+    simp only [cpFields] at h ⊢
+    cases h1 : cpVal f s v with
+    | error e => simp [h1] at h
+    | ok r1 =>
+      obtain ⟨s1, v1⟩ := r1
+      simp only [h1] at h
+      rw [hv s v _ h1]
+      cases h2 : cpFields f s1 rest with
+      | error e => simp [h2] at h
+      | ok r2 =>
+        simp only [h2] at h
+        simp only [ih s1 _ h2]
+        exact h
+
+theorem mi_of_mv {f : Nat} (hv : MV f) : MI f := by
+  intro items
+  induction items with
+  | nil => intro s i j r h; simp [cpItems] at h ⊢; exact h
+  | cons a1 rest ih =>
+    intro s i j r h
+    simp only [cpItems] at h ⊢
+    cases h1 : cpVal f s a1 with
+    | error e => simp [h1] at h
+    | ok r1 =>
+      obtain ⟨s1, a2⟩ := r1
+      simp only [h1] at h
+      rw [hv s a1 _ h1]
+      cases h2 : cpItems f (retarget s1 i j a1 a2) i j rest with
+      | error e => simp [h2] at h
+      | ok r2 =>
+        simp only [h2] at h
+        simp only [ih _ i j _ h2]
+        exact h
+
+theorem mv_zero : MV 0 := by
+  intro s v r h
+  cases v with
+  | atom a => simp [cpVal] at h ⊢; exact h
+  | ref i =>
+    simp only [cpVal] at h ⊢
+    cases hl : s.m.lookup i with
+    | none => simp [hl] at h
+    | some j => simp only [hl] at h ⊢; exact h
+
+theorem mv_succ {f : Nat} (hv : MV f) : MV (f + 1) := by
+  have hf := mf_of_mv hv
+  have hi := mi_of_mv hv
+  intro s v r h
+  cases v with
+  | atom a => simp [cpVal] at h ⊢; exact h
+  | ref i =>
+    simp only [cpVal] at h ⊢
+    cases hl : s.m.lookup i with
+    | some j => simp only [hl] at h ⊢; exact h
+    | none =>
+      simp only [hl] at h ⊢
+      cases ho : s.h[i]? with
+      | none => simp [ho] at h
+      | some o =>
+        simp only [ho] at h ⊢
+        cases hk : o.kind <;> simp only [hk] at h ⊢
+        case annset =>
+          cases ht : o.get "target" <;> cases hit : itemFields s.h i <;> simp only [ht, hit] at h ⊢ <;> try (exact absurd h (by simp))
+          rename_i tv items
+          cases h1 : cpVal f s tv with
+          | error e => simp [h1] at h
+          | ok r1 =>
+            obtain ⟨s1, tv'⟩ := r1
+            simp only [h1] at h
+            simp only [hv s tv _ h1]
+            cases h2 : cpFields f ⟨s1.h.push { kind := Kind.annset, cls := o.cls, fields := [] }, (i, s1.h.size) :: s1.m⟩ items with
+            | error e => simp [h2] at h
+            | ok r2 =>
+              simp only [h2] at h
+              simp only [hf _ _ _ h2]
+              exact h
+        all_goals
+          split at h
+          · simp at h
+          · rename_i s2 fs' heq
+            simp only [hf _ _ _ heq]
+            cases ha : annotationsRef o with
+            | none => simp only [ha] at h ⊢; exact h
+            | some a =>
+              simp only [ha] at h ⊢
+              split at h
+              · rename_i ao items hao hit
+                try simp only [hao, hit]
+                split at h
+                · simp at h
+                · rename_i s4 items' heq2
+                  simp only [hi _ _ _ _ _ heq2]
+                  exact h
+              · simp at h
+
+theorem mv_all : ∀ f, MV f
+  | 0 => mv_zero
+  | f + 1 => mv_succ (mv_all f)
+end Aux
+
+/-- **fuel_mono**: a run that succeeds keeps its result with any larger fuel — the only outcome that depends on the fuel is
+`err fuel` (which the driver reports and never replaces by a default). -/
+theorem fuel_mono (f f' : Nat) (hle : f ≤ f') (s : St) (v : Val) (r : St × Val) (h : cpVal f s v = .ok r) :
+    cpVal f' s v = .ok r := by
+  obtain ⟨d, rfl⟩ := Nat.exists_eq_add_of_le hle
+  induction d with
+  | zero => exact h
+  | succ d ih => exact Aux.mv_all (f + d) s v r (ih (Nat.le_add_right _ _))
+
+/-- **fuel_result_unique**: two successful runs with different fuels return the same heap, memo and value: the theorems,
+which hold for every fuel, speak about the one result the driver prints. -/
+theorem fuel_result_unique (f f' : Nat) (s : St) (v : Val) (r r' : St × Val)
+    (h : cpVal f s v = .ok r) (h' : cpVal f' s v = .ok r') : r = r' := by
+  have h1 := fuel_mono f (max f f') (Nat.le_max_left _ _) s v r h
+  have h2 := fuel_mono f' (max f f') (Nat.le_max_right _ _) s v r' h'
+  rw [h1] at h2
+  cases h2; rfl
+
+/-! ### histories of later changes -/
+
+/-- a later change of the heap: overwrite an existing object, or allocate a new one -/
+inductive Op where
+  | write (x : Nat) (o : Obj)
+  | alloc (o : Obj)
+
+def applyOp (h : Heap) : Op → Heap
+  | .write x o => h.setIfInBounds x o
+  | .alloc o => h.push o
+
+def applyOps (h : Heap) (ops : List Op) : Heap := ops.foldl applyOp h
+
+namespace Aux
+theorem applyOps_size_le (ops : List Op) : ∀ h : Heap, h.size ≤ (applyOps h ops).size := by
+  induction ops with
+  | nil => intro h; exact Nat.le_refl _
+  | cons op r ih =>
+    intro h
+    have := ih (applyOp h op)
+    cases op <;> simp [applyOps, applyOp] at this ⊢ <;> simp [applyOps] at ih <;> omega
+
+/-- objects outside the written set survive any history (writes elsewhere, allocations) -/
+theorem applyOps_untouched (ops : List Op) : ∀ (h : Heap) (y : Nat), y < h.size →
+    (∀ x o, Op.write x o ∈ ops → x ≠ y) → (applyOps h ops)[y]? = h[y]? := by
+  induction ops with
+  | nil => intro h y _ _; rfl
+  | cons op r ih =>
+    intro h y hy hw
+    have hw' : ∀ x o, Op.write x o ∈ r → x ≠ y := fun x o hm => hw x o (List.mem_cons_of_mem _ hm)
+    show (applyOps (applyOp h op) r)[y]? = h[y]?
+    cases op with
+    | write x o =>
+      have hne : x ≠ y := hw x o (by simp)
+      rw [ih (applyOp h (.write x o)) y (by simp [applyOp]; exact hy) hw']
+      simp [applyOp, Array.getElem?_setIfInBounds, hne]
+    | alloc o =>
+      rw [ih (applyOp h (.alloc o)) y (by simp [applyOp]; omega) hw']
+      simp [applyOp, Array.getElem?_push]; omega
+end Aux
+
+/-- **frame_source_history**: for EVERY history of later changes on the source side — any sequence of allocations and of
+overwrites of old objects that are not reachable from a pre-seeded target, or of objects allocated after the copy — every
+object of the copy (reachable from the copy's root in the heap the copy returned) is unchanged at the end. -/
+theorem frame_source_history (fuel : Nat) (h : Heap) (pre : Memo) (v : Val) (s' : St) (v' : Val)
+    (hr : cpVal fuel ⟨h, pre⟩ v = .ok (s', v')) (ops : List Op)
+    (hops : ∀ x o, Op.write x o ∈ ops →
+      (x < h.size ∧ ∀ r ∈ targets pre, ¬ Reach s'.h (.ref r) x) ∨ s'.h.size ≤ x) :
+    ∀ y, Reach s'.h v' y → y < s'.h.size → (applyOps s'.h ops)[y]? = s'.h[y]? := by
+  intro y hy hlt
+  apply applyOps_untouched ops s'.h y hlt
+  intro x o hm e
+  subst e
+  rcases hops x o hm with ⟨hx, hnot⟩ | hge
+  · obtain ⟨r, hr1, hr2⟩ := copy_shares_only_preseeded fuel h pre v s' v' hr x hy hx
+    exact hnot r hr1 hr2
+  · omega
+
+/-- **frame_copy_history**: for EVERY history of later changes on the copy side — any sequence of allocations and of
+overwrites of objects allocated by the copy or later — every exported object is unchanged at the end (given that no
+pre-seeded target is a bound annotation), so no change of the copy is visible through the source. -/
+theorem frame_copy_history (fuel : Nat) (h : Heap) (pre : Memo) (v : Val) (s' : St) (v' : Val)
+    (hpre : ∀ x ∈ targets pre, isBound h x = false)
+    (hr : cpVal fuel ⟨h, pre⟩ v = .ok (s', v')) (ops : List Op)
+    (hops : ∀ x o, Op.write x o ∈ ops → h.size ≤ x) :
+    ∀ x, x < h.size → (applyOps s'.h ops)[x]? = h[x]? := by
+  intro x hx
+  have hb := ((pval_all h.size h pre fuel) _ _ _ _ (good_init h pre) hr).1.base
+  rw [applyOps_untouched ops s'.h x (by omega) (by intro x' o hm e; subst e; have := hops _ o hm; omega)]
+  exact copy_no_write_scoped fuel h pre v s' v' hpre hr x hx
 
 /-! ## the thin structural clone -/
 
@@ -691,6 +1111,95 @@ theorem extractL_suppresses (tax elb : Nat → String) : ∀ ts : List T, X.noUn
     simp [extractL, X.noUnaryL, extract_suppresses tax elb c, extractL_suppresses tax elb cs]
 end
 
+mutual
+/-- pre-order list of what a clone carries: (taxon, edge length, node label, edge label) -/
+def X.attrs : X → List (String × Option Frac × String × String)
+  | .node t l s e cs => (t, l, s, e) :: X.attrsL cs
+def X.attrsL : List X → List (String × Option Frac × String × String)
+  | [] => []
+  | c :: cs => X.attrs c ++ X.attrsL cs
+end
+
+mutual
+/-- the same list read off the source tree -/
+def srcAttrs (tax elb : Nat → String) : T → List (String × Option Frac × String × String)
+  | .node i _ l s cs => (tax i, l, encodeStr s, elb i) :: srcAttrsL tax elb cs
+def srcAttrsL (tax elb : Nat → String) : List T → List (String × Option Frac × String × String)
+  | [] => []
+  | c :: cs => srcAttrs tax elb c ++ srcAttrsL tax elb cs
+end
+
+mutual
+/-- pre-order (taxon, node label, edge label) of the source nodes that are not unifurcations -/
+def srcLabsSup (tax elb : Nat → String) : T → List (String × String × String)
+  | .node i _ _ s cs => (if cs.length = 1 then [] else [(tax i, encodeStr s, elb i)]) ++ srcLabsSupL tax elb cs
+def srcLabsSupL (tax elb : Nat → String) : List T → List (String × String × String)
+  | [] => []
+  | c :: cs => srcLabsSup tax elb c ++ srcLabsSupL tax elb cs
+end
+
+def X.labs (x : X) : List (String × String × String) := x.attrs.map (fun a => (a.1, a.2.2.1, a.2.2.2))
+def X.labsL (xs : List X) : List (String × String × String) := (X.attrsL xs).map (fun a => (a.1, a.2.2.1, a.2.2.2))
+
+namespace Aux
+theorem withLen_labs (k : X) (l : Option Frac) : (k.withLen l).labs = k.labs := by
+  cases k with
+  | node t l' s e cs => simp [X.withLen, X.labs, X.attrs]
+theorem labsL_cons (c : X) (cs : List X) : X.labsL (c :: cs) = c.labs ++ X.labsL cs := by
+  simp [X.labsL, X.labs, X.attrsL]
+end Aux
+
+mutual
+/-- **extract_nosup_attrs**: without suppression every node of the source is cloned, in the same (pre-)order, with exactly its
+taxon, edge length, node label and edge label — structure, lengths, labels and taxa are all carried over. -/
+theorem extract_nosup_attrs (tax elb : Nat → String) : ∀ t : T, (extract false tax elb t).attrs = srcAttrs tax elb t
+  | .node i x l s cs => by
+    have ih := extractL_nosup_attrs tax elb cs
+    cases hks : extractL false tax elb cs with
+    | nil => rw [hks] at ih; simp [extract, hks, X.attrs, srcAttrs, ← ih]
+    | cons k ks =>
+      rw [hks] at ih
+      cases ks with
+      | nil => simp [extract, hks, X.attrs, srcAttrs, ← ih]
+      | cons k2 ks2 => simp [extract, hks, X.attrs, srcAttrs, ← ih]
+theorem extractL_nosup_attrs (tax elb : Nat → String) : ∀ ts : List T,
+    X.attrsL (extractL false tax elb ts) = srcAttrsL tax elb ts
+  | [] => by simp [extractL, X.attrsL, srcAttrsL]
+  | c :: cs => by
+    simp [extractL, X.attrsL, srcAttrsL, extract_nosup_attrs tax elb c, extractL_nosup_attrs tax elb cs]
+end
+
+mutual
+/-- **extract_sup_labels**: with suppression the clone consists of exactly the source nodes that are not unifurcations, in
+pre-order, each with its own taxon, node label and edge label (lengths of removed nodes are absorbed by `absorb`). -/
+theorem extract_sup_labels (tax elb : Nat → String) : ∀ t : T, (extract true tax elb t).labs = srcLabsSup tax elb t
+  | .node i x l s cs => by
+    have ih := extractL_sup_labels tax elb cs
+    have hlen := extractL_length true tax elb cs
+    cases hks : extractL true tax elb cs with
+    | nil =>
+      rw [hks] at ih hlen
+      have : cs.length ≠ 1 := by simp at hlen; omega
+      simp [extract, hks, X.labs, X.attrs, srcLabsSup, this, ← ih, X.labsL]
+    | cons k ks =>
+      rw [hks] at ih hlen
+      cases ks with
+      | nil =>
+        have : cs.length = 1 := by simp at hlen; omega
+        have e : extract true tax elb (.node i x l s cs) = k.withLen (absorb l k.len) := by simp [extract, hks]
+        rw [e, withLen_labs]
+        simp only [srcLabsSup, this, if_true, List.nil_append, ← ih, labsL_cons]
+        simp [X.labsL, X.attrsL]
+      | cons k2 ks2 =>
+        have : cs.length ≠ 1 := by simp at hlen; omega
+        simp [extract, hks, X.labs, X.attrs, srcLabsSup, this, ← ih, X.labsL]
+theorem extractL_sup_labels (tax elb : Nat → String) : ∀ ts : List T,
+    X.labsL (extractL true tax elb ts) = srcLabsSupL tax elb ts
+  | [] => by simp [extractL, X.labsL, X.attrsL, srcLabsSupL]
+  | c :: cs => by
+    simp [extractL, labsL_cons, srcLabsSupL, extract_sup_labels tax elb c, extractL_sup_labels tax elb cs]
+end
+
 /-! ## non-vacuity: the hypotheses are satisfiable and the conclusions are not empty -/
 
 /-- a cyclic 2-object heap: a node 0 with a reference to 1, which points back to 0 -/
@@ -717,6 +1226,49 @@ example : Closed exHeap := by
   | 1, _ =>
     simp [exHeap] at hget; subst hget; simp at hf
     subst hf; simp at hk; subst hk; decide
+/-- a tree with an annotation set holding one attribute-bound annotation (bound to the tree's `weight`) -/
+def exAnn : Heap := #[
+  { kind := .annotable, cls := "Tree", fields := [("weight", .atom "None"), ("_annotations", .ref 1)] },
+  { kind := .annset, cls := "AnnotationSet", fields := [("_item_list", .ref 2), ("_item_set", .ref 3), ("target", .ref 0)] },
+  { kind := .plain, cls := "list", fields := [("#0", .ref 4)] },
+  { kind := .plain, cls := "set", fields := [("e0", .ref 4)] },
+  { kind := .annotable, cls := "Annotation", fields := [("_value", .ref 5), ("is_attribute", .atom "True")] },
+  { kind := .tuple, cls := "tuple", fields := [("#0", .ref 0), ("#1", .atom "weight")] }]
+/-- the driver's deep-copy route succeeds on it with the fuel the driver uses; in the FINAL heap the copied annotation (7) is
+bound to the copy of the tree (6), not to the source (0) -/
+example : ∃ s' v', copyRoute exAnn [] (.ref 0) = .ok (s', v') ∧ v' = .ref 6 ∧ s'.h.size = 13 ∧
+    boundValue s'.h 7 = some (.ref 6, .atom "weight") := by
+  simp [copyRoute, preseed, cpVal, cpFields, cpItems, exAnn, planFields, annotationsRef, setFields, setField, setFieldL, List.lookup,
+    itemFields, Obj.get, retarget, isBound, boundValue, attachAnnotations, pushAnnSet, dedupVals, indexed]
+  exact ⟨_, _, ⟨rfl, rfl⟩, rfl, by simp, by simp [List.lookup]⟩
+/-- a node with a taxon, copied into another namespace that has no taxon of that label (`.fresh`) -/
+def exNs : Heap := #[
+  { kind := .annotable, cls := "Node", fields := [("taxon", .ref 1)] },
+  { kind := .taxon, cls := "Taxon", fields := [("_label", .atom "str:A")] }]
+example : ∃ s' v', copyRoute exNs [(1, .fresh)] (.ref 0) = .ok (s', v') ∧ v' = .ref 4 ∧
+    s'.h[4]? = some { kind := .annotable, cls := "Node", fields := [("taxon", .ref 3)] } := by
+  simp [copyRoute, preseed, newTaxon, cpVal, cpFields, exNs, planFields, annotationsRef, setFields, List.lookup, Obj.get]
+  exact ⟨_, _, ⟨rfl, rfl⟩, rfl, by simp⟩
+/-- the namespace-scoped route (taxon seeded to itself) shares the taxon: `route_no_write`'s hypothesis holds, the copy references 1 -/
+example : ∃ s' v', copyRoute exNs [(1, .existing 1)] (.ref 0) = .ok (s', v') ∧
+    s'.h[2]? = some { kind := .annotable, cls := "Node", fields := [("taxon", .ref 1)] } := by
+  simp [copyRoute, preseed, cpVal, cpFields, exNs, planFields, annotationsRef, setFields, List.lookup, Obj.get]
+example : ∀ i t, (i, PreTarget.existing t) ∈ [(1, PreTarget.existing 1)] → isBound exNs t = false := by
+  intro i t h
+  simp at h
+  obtain ⟨_, rfl⟩ := h
+  rfl
+/-- nothing is defaulted: a repeated label whose first occurrence was not seeded is refused -/
+example : copyRoute exNs [(1, .sameAs 0)] (.ref 0) = .error .malformed := by
+  simp [copyRoute, preseed, List.lookup]
+/-- a history of later changes on the source side (overwrite of old object 0, an allocation, overwrite of the new object) -/
+example : applyOps exHeap [.write 0 { kind := .plain, cls := "X", fields := [] }, .alloc default, .write 2 default] =
+    #[{ kind := .plain, cls := "X", fields := [] }, { kind := .plain, cls := "Node", fields := [("c", .ref 0)] }, default] := by
+  simp [applyOps, applyOp, exHeap]
+example : (extract true (fun i => if i = 2 then "leaf" else "inner") (fun _ => "-")
+    (.node 0 none none none [.node 1 none (some ⟨1, 1⟩) none [.node 2 (some 0) (some ⟨2, 1⟩) none []]])).labs
+      = [("leaf", "-", "-")] := by
+  simp [extract, extractL, X.withLen, X.labs, X.attrs, X.attrsL, encodeStr, absorb, X.len]
 example : ∀ x ∈ targets [(1, 1)], isBound exHeap x = false := by
   intro x hx; simp [targets] at hx; subst hx; rfl
 
